@@ -11,6 +11,10 @@ CHECKS = {
    technique="stateless deviation-bounded exploration of read schedules (all chunkings for short inputs) over bounded-exhaustive inputs, on the real library; slice run as reference",
    text="For every enumerated input (all token sequences up to k per format, seed corpus and its single-edit neighbourhood, all byte strings <= 2) and every read schedule within the deviation bound (every chunking for short inputs), translate_reader gives the verdict and bytes of translate_slice. Exhaustive within the stated bounds; coverage counts are in the evidence.",
    note="Trusted: the harness's SchedReader (never returns Interrupted / premature EOF), catch_unwind isolation, the explanation tests of the four known-finding classes in KNOWN_FINDINGS.txt (each recomputed per case). Inputs beyond the alphabets/bounds are not covered."),
+ "C06": dict(cat="exploration", design="4.6",
+   technique="bounded-exhaustive enumeration of documents x ordered format pairs, metamorphic two-hop oracle on the real library (idempotence and round trip), both supply modes at each hop",
+   text="For every enumerated document (C01 corpus, boundary-sized collections, buffer-straddling strings, extensions) and every ordered pair (A,B): whenever xt(A->B)(x) succeeds, xt(B->B) reproduces it byte for byte from slice and reader, and for common-model documents xt(B->A) of it equals xt(A->A)(x) (TOML: of the reordered value).",
+   note="Metamorphic oracle: xt is compared with itself, so a defect that affects both sides identically is invisible here (C01 covers absolute fidelity)."),
  "C09": dict(cat="model_checking", design="4.9",
    technique="explicit-state BFS to fixpoint over operation programs on the real rewindable input handle (canonical keys read through a hook, validated by probe suffixes) + deviation-bounded schedule exploration of detection over bounded-exhaustive inputs",
    text="(A) every reachable state of the input handle for data sizes 0..n under 5 source answer patterns, every borrow program up to the op bound from each state, both ways of taking ownership from each state, checked against a byte-string+offset reference model; (B) for every corpus input and every read schedule within the deviation bound: detection never errs, undetected inputs fail with exactly 'unable to detect input format', detected inputs behave exactly (verdict, bytes, error text) like the explicit run, slice and reader detect the same format for translatable inputs.",
